@@ -633,9 +633,16 @@ func (r *runner) shadow(a act) {
 			m[a.K+i] = true
 		}
 	case "drain":
-		for i := 0; i < a.N; i++ {
-			if k, ok := ext(a.Max); ok {
-				delete(m, k)
+		ks := make([]int, 0, len(m))
+		for k := range m {
+			ks = append(ks, k)
+		}
+		sort.Ints(ks)
+		for i := 0; i < a.N && i < len(ks); i++ {
+			if a.Max {
+				delete(m, ks[len(ks)-1-i])
+			} else {
+				delete(m, ks[i])
 			}
 		}
 	case "ins", "roi":
